@@ -299,7 +299,7 @@ func runCase(run *evid.Run, sch *schemaSet, idx int, spec caseSpec) *caseCtx {
 		c.partLockIDs(spec)
 	case "hashalgo":
 		c.partHashAlgo(spec)
-	case "corrupt":
+	case "corrupt", "corrupt-retry":
 		c.partCorrupt(spec)
 	default:
 		panic("unknown part " + spec.part)
@@ -335,6 +335,7 @@ func plan(run *evid.Run) []caseSpec {
 	add("lock-ids", len(hostileLockIDs), 4*len(hostileLockIDs), false)
 	add("hashalgo", len(hashAlgoCases), 6*len(hashAlgoCases), false)
 	add("corrupt", len(corruptions), 4*len(corruptions), false)
+	add("corrupt-retry", len(batchCorruptionIdx), 3*len(batchCorruptionIdx), false)
 	// interleave the parts so that long and short cases mix over the workers
 	r := rand.New(rand.NewSource(run.Seed + 99))
 	r.Shuffle(len(specs), func(i, j int) { specs[i], specs[j] = specs[j], specs[i] })
@@ -346,7 +347,7 @@ func main() {
 	defer sbx.RemoveBase()
 	sbx.Base() // created once, before the workers start
 	sch := loadSchemas(run)
-	run.Rule = "cases = seeded scenarios run with the real git-lfs binary against the fake LFS server; parts: push plans (histgen histories; branch / --all / --tags / new commits / force / delete / refspec with a different remote name / git lfs push <ref> / --all / --object-id; batch sizes 1,2,3,100; verify actions; scripted 5xx/429/expired actions on batch and storage), fetch / pull / clone / fetch --all / --recent / include+exclude / prune --verify-remote (with 5xx, connection cuts and resets on storage), lock histories of two users (lock / unlock / unlock --id / --force / locks with --path --id --limit --verify; server page size 0..2; pre-push lock verification), the same with hostile names (ref names git accepts containing quotes, %, #, +, @, non-ASCII; lock paths with quotes, backslashes, tabs, control and non-ASCII characters, URL-special characters, very long names), lock ids that need URL escaping, batch responses with hash_algo in {sha512,sha1,md5,sha256,absent} x {push, lfs push, fetch, pull}, and every single-field corruption of a valid batch / lock-create / lock-list / lock-verify response (table in corrupt.go). Oracle: oracle.go applied to every logged request. Class = part + the coordinates the case hit (step kinds, batch size, corruption id, hash_algo value, name class)."
+	run.Rule = "cases = seeded scenarios run with the real git-lfs binary against the fake LFS server; parts: push plans (histgen histories; branch / --all / --tags / new commits / force / delete / refspec with a different remote name / git lfs push <ref> / --all / --object-id; batch sizes 1,2,3,100; verify actions; scripted 5xx/429/expired actions on batch and storage), fetch / pull / clone / fetch --all / --recent / include+exclude / prune --verify-remote (with 5xx, connection cuts and resets on storage), lock histories of two users (lock / unlock / unlock --id / --force / locks with --path --id --limit --verify; server page size 0..2; pre-push lock verification), the same with hostile names (ref names git accepts containing quotes, %, #, +, @, non-ASCII; lock paths with quotes, backslashes, tabs, control and non-ASCII characters, URL-special characters, very long names), lock ids that need URL escaping, batch responses with hash_algo in {sha512,sha1,md5,sha256,absent} x {push, lfs push, fetch, pull}, and every single-field corruption of a valid batch / lock-create / lock-list / lock-verify response (table in corrupt.go), the batch corruptions a second time each with the first storage request of the command answered 503 (part corrupt-retry: the object the corrupted answer was about goes through the retry path and a second batch request). Oracle: oracle.go applied to every logged request. Class = part + the coordinates the case hit (step kinds, batch size, corruption id, hash_algo value, name class)."
 	run.Assumptions = []string{
 		"the request log of the fake server is complete (every request of the case reaches it: lfs.url points at it, no other remote is configured)",
 		"hrefs issued by the fake server or by an injected response are unique per offer (token in the query string), so a storage/verify request identifies its offer",
